@@ -48,6 +48,7 @@ var urlClasses = []string{
 	"https://example.com/story/view?tag=go&pg=2",
 	"https://example.com/story/view?pg=2&pg=3&tag=web",
 	"https://example.com/zqt/12/p/1",
+	"https://example.com/caf%C3%A9/old%20town/story%2Fview/2",
 }
 
 type callStep struct {
